@@ -9,7 +9,7 @@ import crypto from "node:crypto";
 
 const [, , RT, JOBS, OUT] = process.argv;
 const clientDir = path.join(RT, "node_modules", "@beff", "client");
-const GLUE = fs.readFileSync("/repo/packages/beff-wasm/bundled-code/codegen-v2.js", "utf8");
+const GLUE = fs.readFileSync((process.env.REPO_ROOT ?? "/repo") + "/packages/beff-wasm/bundled-code/codegen-v2.js", "utf8");
 
 // ---------------------------------------------------------------- value codec
 export function decode(t) {
